@@ -831,6 +831,21 @@ class Interp(object):
             raise Unsupported('member %s at %s' % (r, fn.loc(i)))
         if k == 'CXXDefaultArgExpr':
             return AV.const(n.get('cv', 0))
+        if k == 'CXXNewExpr' and n.get('array'):
+            # new T[n]: a fresh zero-filled array of n elements (n must be a point value in this box)
+            cnt = None
+            for c_ in n['ch']:
+                v_ = self.rvalue(fn, c_, env)
+                if isinstance(v_, AV):
+                    cnt = v_
+                    break
+            if cnt is None:
+                raise Unsupported('array new without a size at %s' % fn.loc(i))
+            if not cnt.is_const():
+                self.split_on(cnt.deps)
+            if cnt.lo < 0 or cnt.lo > 65536:
+                raise Unsupported('array new of %d elements at %s' % (cnt.lo, fn.loc(i)))
+            return PV(Arr([AV.const(0) for _ in range(cnt.lo)], 'new'), 0)
         if k == 'CXXThrowExpr':
             raise _Return(('throw', fn.loc(i)))
         if k == 'UnaryExprOrTypeTraitExpr':
